@@ -76,6 +76,8 @@ def run(ctx):
     rule_close_writes(ctx, r1)
     from .c07 import rule_tracked_dump
     rule_tracked_dump(ctx, r1)
+    from .persist import rule_table_ownership
+    rule_table_ownership(ctx, r1)
 
     # an accepted job leaves the tracked table only by being replaced at a new accepted submission: a cancellation the scheduler refuses
     # (the job is still pending or running) must not forget it, or the next run submits a duplicate
